@@ -1,9 +1,520 @@
-(** C18 - lemmas about Args/Model.v. *)
+(** C18 - lemmas about Args/Model.v (statements of the property theorems are in Props/C18.v). *)
 From Coq Require Import List ZArith String Ascii Bool Lia ZifyBool ZifyNat.
-From Thunder Require Import Lib.Json Args.Model.
+From Thunder Require Import Lib.Json Args.Model Args.Spec.
 Import ListNotations.
 Open Scope string_scope.
 Local Open Scope Z_scope.
+
+(** * Induction principle for the nested type language *)
+Section TyInd.
+  Variable P : ty -> Prop.
+  Hypothesis Hbool : P TBool.
+  Hypothesis Hint : forall k, P (TInt k).
+  Hypothesis Hf32 : P TF32.
+  Hypothesis Hf64 : P TF64.
+  Hypothesis Hstring : P TString.
+  Hypothesis Hbytes : P TBytes.
+  Hypothesis Htime : P TTime.
+  Hypothesis Henum : forall z names, P (TEnum z names).
+  Hypothesis Htext : P TText.
+  Hypothesis Hptr : forall t, P t -> P (TPtr t).
+  Hypothesis Hopt : forall t, P t -> P (TOpt t).
+  Hypothesis Hlist : forall t, P t -> P (TList t).
+  Hypothesis Hstruct : forall fs, Forall (fun nt => P (snd nt)) fs -> P (TStruct fs).
+
+  Fixpoint ty_ind' (t : ty) : P t :=
+    match t with
+    | TBool => Hbool
+    | TInt k => Hint k
+    | TF32 => Hf32
+    | TF64 => Hf64
+    | TString => Hstring
+    | TBytes => Hbytes
+    | TTime => Htime
+    | TEnum z names => Henum z names
+    | TText => Htext
+    | TPtr t' => Hptr t' (ty_ind' t')
+    | TOpt t' => Hopt t' (ty_ind' t')
+    | TList t' => Hlist t' (ty_ind' t')
+    | TStruct fs =>
+        Hstruct fs ((fix go (fs : list (string * ty)) : Forall (fun nt => P (snd nt)) fs :=
+                       match fs with
+                       | [] => Forall_nil _
+                       | nt :: r => Forall_cons _ (ty_ind' (snd nt)) (go r)
+                       end) fs)
+    end.
+End TyInd.
+
+(** * Named forms of the inner loops *)
+Fixpoint mapr {A B} (f : A -> result B) (l : list A) : result (list B) :=
+  match l with
+  | [] => Ok []
+  | x :: r => match f x with
+              | Err e => Err e
+              | Ok v => match mapr f r with Ok vs => Ok (v :: vs) | Err e => Err e end
+              end
+  end.
+
+Section ParseLemmas.
+  Variable b64 : string -> option (list Z).
+  Variable tdec : string -> option tval.
+  Variable xdec : string -> option string.
+  Notation parse := (parse b64 tdec xdec).
+  Notation renders := (renders b64 tdec xdec).
+
+  Fixpoint parse_fields (o : list (string * jv)) (fs : list (string * ty)) : result (list (string * gv)) :=
+    match fs with
+    | [] => Ok []
+    | (n, t') :: r => match parse t' (field_val n o) with
+                      | Err e => Err e
+                      | Ok v => match parse_fields o r with
+                                | Ok vs => Ok ((n, v) :: vs)
+                                | Err e => Err e
+                                end
+                      end
+    end.
+
+  Lemma parse_list_eq t' l :
+    parse (TList t') (VArr l) = match mapr (parse t') l with Ok vs => Ok (GList vs) | Err e => Err e end.
+  Proof.
+    cbn [Model.parse].
+    induction l as [|x r IH]; [reflexivity|].
+    cbn [mapr]. destruct (parse t' x) as [v|e]; [|reflexivity].
+    match type of IH with match ?F with _ => _ end = _ => destruct F end;
+      destruct (mapr (parse t') r); inversion IH; subst; reflexivity.
+  Qed.
+
+  Lemma parse_struct_eq fs o :
+    parse (TStruct fs) (VObj o) = match parse_fields o fs with Ok vs => Ok (GStruct vs) | Err e => Err e end.
+  Proof.
+    cbn [Model.parse].
+    induction fs as [|[n t'] r IH]; [reflexivity|].
+    cbn [parse_fields]. destruct (parse t' (field_val n o)) as [v|e]; [|reflexivity].
+    match type of IH with match ?F with _ => _ end = _ => destruct F end;
+      destruct (parse_fields o r); inversion IH; subst; reflexivity.
+  Qed.
+End ParseLemmas.
+
+(** * Numbers *)
+Ltac Zify.zify_post_hook ::= Z.div_mod_to_equations.
+
+Ltac pows :=
+  repeat match goal with
+         | |- context [2 ^ ?n] => let v := eval vm_compute in (2 ^ n) in progress change (2 ^ n) with v
+         end.
+Ltac pows_in H :=
+  repeat match type of H with
+         | context [2 ^ ?n] => let v := eval vm_compute in (2 ^ n) in progress change (2 ^ n) with v in H
+         end.
+
+Lemma cvt32_id z : - 2 ^ 31 <= z < 2 ^ 31 -> cvt32 z = z.
+Proof. unfold cvt32. intros H. pows_in H; pows. destruct (_ && _) eqn:E; lia. Qed.
+
+Lemma cvt64_id z : - 2 ^ 63 <= z < 2 ^ 63 -> cvt64 z = z.
+Proof. unfold cvt64. intros H. pows_in H; pows. destruct (_ && _) eqn:E; lia. Qed.
+
+Lemma wrap_signed_id w z : 0 < w -> - 2 ^ (w - 1) <= z < 2 ^ (w - 1) -> wrap w true z = z.
+Proof.
+  intros Hw H. unfold wrap. cbv zeta. cbn [andb].
+  assert (E : 2 ^ w = 2 * 2 ^ (w - 1)).
+  { replace w with (Z.succ (w - 1)) at 1 by lia. rewrite Z.pow_succ_r by lia. reflexivity. }
+  rewrite E. set (h := 2 ^ (w - 1)) in *.
+  assert (0 < h) by (apply Z.pow_pos_nonneg; lia).
+  destruct (Z.neg_nonneg_cases z) as [Hn | Hn].
+  - assert (Em : z mod (2 * h) = z + 2 * h).
+    { symmetry. apply (Z.mod_unique z (2 * h) (-1) (z + 2 * h)); [left; lia | lia]. }
+    rewrite Em. destruct (h <=? z + 2 * h) eqn:C; lia.
+  - rewrite Z.mod_small by lia. destruct (h <=? z) eqn:C; lia.
+Qed.
+
+Lemma wrap_unsigned_id w z : 0 <= z < 2 ^ w -> wrap w false z = z.
+Proof. intros H. unfold wrap. cbv zeta. cbn [andb]. apply Z.mod_small. exact H. Qed.
+
+Lemma conv_id k z : conv_ok k z -> conv k z = z.
+Proof.
+  unfold conv_ok, int_lo, int_hi, conv.
+  destruct k; cbn [width signed]; intros [H H63]; pows_in H.
+  - rewrite cvt32_id by (pows; lia). apply wrap_signed_id; pows; lia.
+  - rewrite cvt32_id by (pows; lia). apply wrap_signed_id; pows; lia.
+  - rewrite cvt32_id by (pows; lia). apply wrap_signed_id; pows; lia.
+  - rewrite cvt64_id by (pows; lia). apply wrap_signed_id; pows; lia.
+  - rewrite cvt64_id by (pows; lia). apply wrap_signed_id; pows; lia.
+  - rewrite cvt32_id by (pows; lia). apply wrap_unsigned_id; pows; lia.
+  - rewrite cvt32_id by (pows; lia). apply wrap_unsigned_id; pows; lia.
+  - rewrite cvt64_id by (pows; lia). apply wrap_unsigned_id; pows; lia.
+  - (* uint64 goes through int64: exact below 2^63 only *)
+    specialize (H63 eq_refl). pows_in H63.
+    rewrite cvt64_id by (pows; lia). apply wrap_unsigned_id; pows; lia.
+  - destruct (z <? 2 ^ 63) eqn:C; pows_in C.
+    + rewrite cvt64_id by (pows; lia). apply wrap_unsigned_id; pows; lia.
+    + destruct (z <? 2 ^ 64) eqn:C2; pows_in C2; [reflexivity | lia].
+Qed.
+
+Lemma trunc_int z : trunc z 0 = z.
+Proof. unfold trunc. rewrite Z.leb_refl, Z.pow_0_r, Z.mul_1_r. reflexivity. Qed.
+
+Lemma round_sig_small p m e : 0 < p -> Z.abs m < 2 ^ p -> round_sig p m e = (m, e).
+Proof.
+  intros Hp Hm. unfold round_sig.
+  destruct (Z.abs m =? 0) eqn:E0.
+  - destruct (0 <=? p) eqn:E; [reflexivity | lia].
+  - assert (Ha : 0 < Z.abs m) by lia.
+    apply Z.log2_lt_pow2 in Hm; [|exact Ha].
+    destruct (Z.log2 (Z.abs m) + 1 <=? p) eqn:E; [reflexivity | lia].
+Qed.
+
+Lemma round53_int z :
+  - 2 ^ 53 <= z <= 2 ^ 53 -> forall m e, round_sig 53 z 0 = (m, e) -> trunc m e = z.
+Proof.
+  intros H m e Hr.
+  assert (C : Z.abs z < 2 ^ 53 \/ z = 2 ^ 53 \/ z = - 2 ^ 53) by (pows_in H; pows; lia).
+  destruct C as [C | [-> | ->]].
+  - rewrite round_sig_small in Hr by (try lia; exact C). inversion Hr; subst. apply trunc_int.
+  - vm_compute in Hr. inversion Hr; subst. reflexivity.
+  - vm_compute in Hr. inversion Hr; subst. reflexivity.
+Qed.
+
+(** * Every rendering parses to the value it renders *)
+Section Master.
+  Variable b64 : string -> option (list Z).
+  Variable tdec : string -> option tval.
+  Variable xdec : string -> option string.
+  Notation parse := (parse b64 tdec xdec).
+  Notation renders := (renders b64 tdec xdec).
+  Notation parse_fields := (parse_fields b64 tdec xdec).
+
+  Lemma parse_ptr_nonnull t' j :
+    j <> VNull -> parse (TPtr t') j = match parse t' j with Ok v => Ok (GPtr v) | Err e => Err e end.
+  Proof. destruct j; intros H; try reflexivity. congruence. Qed.
+
+  Lemma parse_opt_nonnull t' j : j <> VNull -> parse (TOpt t') j = parse t' j.
+  Proof. destruct j; intros H; try reflexivity. congruence. Qed.
+
+  Theorem renders_parse : forall t v j, renders t v j -> parse t j = Ok v.
+  Proof.
+    induction t using ty_ind'; intros v j HR; cbn [Spec.renders] in HR.
+    - destruct HR as (b & -> & ->). reflexivity.
+    - destruct HR as (z & m & e & -> & -> & Ht & Hr). cbn [Model.parse]. rewrite Ht, conv_id by exact Hr. reflexivity.
+    - destruct HR as (m & e & m' & e' & -> & -> & Ha & Hn). cbn [Model.parse].
+      rewrite round_sig_small by (try lia; exact Ha). rewrite Hn. reflexivity.
+    - destruct HR as (m & e & m' & e' & -> & -> & Hn). cbn [Model.parse]. rewrite Hn. reflexivity.
+    - destruct HR as (s & -> & ->). reflexivity.
+    - destruct HR as (b & s & -> & -> & Hd). cbn [Model.parse]. rewrite Hd. reflexivity.
+    - destruct HR as (x & s & -> & -> & Hd). cbn [Model.parse]. rewrite Hd. reflexivity.
+    - destruct HR as (n & -> & Hl). cbn [Model.parse]. rewrite Hl. reflexivity.
+    - destruct HR as (x & s & -> & -> & Hd). cbn [Model.parse]. rewrite Hd. reflexivity.
+    - destruct HR as [[-> ->] | [Hn (v' & -> & Hr)]]; [reflexivity|].
+      rewrite parse_ptr_nonnull by exact Hn. rewrite (IHt _ _ Hr). reflexivity.
+    - destruct HR as [[-> ->] | [Hn Hr]]; [reflexivity|].
+      rewrite parse_opt_nonnull by exact Hn. apply IHt. exact Hr.
+    - destruct HR as (vs & js & -> & -> & HF). rewrite parse_list_eq.
+      assert (E : mapr (parse t) js = Ok vs).
+      { induction HF as [|x y l l' Hxy HF IH]; [reflexivity|].
+        cbn [mapr]. rewrite (IHt _ _ Hxy), IH. reflexivity. }
+      rewrite E. reflexivity.
+    - destruct HR as (vs & o & -> & -> & HF). rewrite parse_struct_eq.
+      assert (E : parse_fields o fs = Ok vs).
+      { revert vs HF. induction H as [|[n t'] r Hh Ht IH]; intros vs HF.
+        - destruct vs; [reflexivity | contradiction].
+        - destruct vs as [|[n' v'] vs']; [contradiction|].
+          destruct HF as (-> & Hr & HF). cbn [Proofs.parse_fields].
+          cbn [snd] in Hh. rewrite (Hh _ _ Hr), (IH _ HF). reflexivity. }
+      rewrite E. reflexivity.
+  Qed.
+End Master.
+
+(** * Association lists *)
+Lemma lookup_in_nodup {A} (l : list (string * A)) n v :
+  NoDup (map fst l) -> In (n, v) l -> lookup n l = Some v.
+Proof.
+  induction l as [|[k x] r IH]; intros Hnd Hin; [contradiction|].
+  cbn [map fst] in Hnd. inversion Hnd as [|? ? Hk Hr]; subst.
+  cbn [lookup]. destruct Hin as [E | Hin].
+  - inversion E; subst. rewrite String.eqb_refl. reflexivity.
+  - destruct (String.eqb n k) eqn:E.
+    + apply String.eqb_eq in E; subst. exfalso. apply Hk.
+      change k with (fst (k, v)). apply in_map. exact Hin.
+    + apply IH; assumption.
+Qed.
+
+Lemma enum_eqb_eq a b : enum_eqb a b = true -> a = b.
+Proof.
+  destruct a, b; cbn; try discriminate; intros H.
+  - apply Z.eqb_eq in H; congruence.
+  - apply String.eqb_eq in H; congruence.
+Qed.
+
+Lemma rev_lookup_in v names n : rev_lookup v names = Some n -> In (n, v) names.
+Proof.
+  induction names as [|[k x] r IH]; cbn [rev_lookup]; [discriminate|].
+  destruct (enum_eqb x v) eqn:E; intros H.
+  - inversion H; subst. apply enum_eqb_eq in E; subst. left; reflexivity.
+  - right; auto.
+Qed.
+
+Lemma rev_lookup_lookup v names n :
+  NoDup (map fst names) -> rev_lookup v names = Some n -> lookup n names = Some v.
+Proof. intros Hnd H. apply lookup_in_nodup; [exact Hnd | apply rev_lookup_in; exact H]. Qed.
+
+(** * Renderings of base types are never null; a null rendering is the zero value *)
+Section RendersFacts.
+  Variable b64 : string -> option (list Z).
+  Variable tdec : string -> option tval.
+  Variable xdec : string -> option string.
+  Notation renders := (renders b64 tdec xdec).
+
+  Lemma renders_nonnull t v j : base_ty t -> renders t v j -> j <> VNull.
+  Proof.
+    destruct t; cbn [base_ty Spec.renders]; intros B H; try contradiction;
+      repeat match goal with
+             | H : exists _, _ |- _ => destruct H
+             | H : _ /\ _ |- _ => destruct H
+             end; subst; discriminate.
+  Qed.
+
+  Lemma renders_null_zero t v : renders t v VNull -> v = zero t.
+  Proof.
+    destruct t; cbn [Spec.renders]; intros H;
+      try (repeat match goal with
+                  | H : exists _, _ |- _ => destruct H
+                  | H : _ /\ _ |- _ => destruct H
+                  end; discriminate).
+    - destruct H as [[_ ->] | [Hn _]]; [reflexivity | congruence].
+    - destruct H as [[_ ->] | [Hn _]]; [reflexivity | congruence].
+  Qed.
+
+  (** Struct members: a list of (name, rendering) pairs with unique names renders the struct. *)
+  Inductive frel : list (string * ty) -> list (string * gv) -> list (string * jv) -> Prop :=
+  | frel_nil : frel [] [] []
+  | frel_cons n t v j fs vs o :
+      renders t v j -> frel fs vs o -> frel ((n, t) :: fs) ((n, v) :: vs) ((n, j) :: o).
+
+  Lemma frel_names fs vs o : frel fs vs o -> map fst o = map fst fs.
+  Proof. induction 1; cbn; congruence. Qed.
+
+  Lemma frel_renders_wrt fs vs o o0 :
+    frel fs vs o -> (forall n j, In (n, j) o -> lookup n o0 = Some j) ->
+    renders (TStruct fs) (GStruct vs) (VObj o0).
+  Proof.
+    intros HF Hl. cbn [Spec.renders]. exists vs, o0. split; [reflexivity|]. split; [reflexivity|].
+    induction HF as [|n t v j fs vs o Hr HF IH]; [exact I|].
+    split; [reflexivity|]. split.
+    - unfold field_val. rewrite (Hl n j) by (left; reflexivity). exact Hr.
+    - apply IH. intros n' j' Hin. apply Hl. right; exact Hin.
+  Qed.
+
+  Lemma frel_renders fs vs o :
+    NoDup (map fst fs) -> frel fs vs o -> renders (TStruct fs) (GStruct vs) (VObj o).
+  Proof.
+    intros Hnd HF. apply (frel_renders_wrt fs vs o o HF).
+    intros n j Hin. apply lookup_in_nodup; [|exact Hin].
+    rewrite (frel_names _ _ _ HF). exact Hnd.
+  Qed.
+End RendersFacts.
+
+(** * Variable transport: the canonical JSON of an in-range value renders it *)
+Section Transport.
+  Variable b64 : string -> option (list Z).
+  Variable tdec : string -> option tval.
+  Variable xdec : string -> option string.
+  Variable b64e : list Z -> string.
+  Variable tenc : tval -> string.
+  Variable xenc : string -> string.
+  Variable time_ok : tval -> Prop.
+  Variable text_ok : string -> Prop.
+  Hypothesis b64_rt : forall b, bytes_ok b -> b64 (b64e b) = Some b.
+  Hypothesis time_rt : forall x, time_ok x -> tdec (tenc x) = Some x.
+  Hypothesis text_rt : forall s, text_ok s -> xdec (xenc s) = Some s.
+
+  Notation parse := (parse b64 tdec xdec).
+  Notation renders := (renders b64 tdec xdec).
+  Notation sendable := (sendable time_ok text_ok).
+  Notation json_of := (json_of b64e tenc xenc).
+
+  Lemma sendable_conv_ok k z :
+    int_lo k <= z <= int_hi k -> - 2 ^ 53 <= z <= 2 ^ 53 -> conv_ok k z.
+  Proof. intros H1 H2. split; [exact H1|]. intros _. pows_in H2. pows. lia. Qed.
+
+  Theorem json_renders : forall t, wf_ty t -> forall v, sendable t v -> renders t v (json_of t v).
+  Proof.
+    induction t using ty_ind'; intros W v S; cbn [wf_ty Spec.sendable] in W, S.
+    - cbn [Spec.json_of Spec.renders]. destruct S as (b & ->). exists b. auto.
+    - cbn [Spec.json_of Spec.renders]. destruct S as (z & -> & Hr & H53). exists z, z, 0.
+      split; [reflexivity|]. split; [reflexivity|].
+      split; [apply trunc_int | apply sendable_conv_ok; assumption].
+    - cbn [Spec.json_of Spec.renders]. destruct S as (m & e & -> & Hn & Ha). exists m, e, m, e. auto.
+    - cbn [Spec.json_of Spec.renders]. destruct S as (m & e & -> & Hn). exists m, e, m, e. auto.
+    - cbn [Spec.json_of Spec.renders]. destruct S as (s & ->). exists s. auto.
+    - cbn [Spec.json_of Spec.renders]. destruct S as (b & -> & Hb). exists b, (b64e b). auto.
+    - cbn [Spec.json_of Spec.renders]. destruct S as (x & -> & Hx). exists x, (tenc x). auto.
+    - cbn [Spec.json_of Spec.renders]. destruct S as (n & Hn). rewrite Hn. exists n. split; [reflexivity|].
+      apply rev_lookup_lookup; assumption.
+    - cbn [Spec.json_of Spec.renders]. destruct S as (x & -> & Hx). exists x, (xenc x). auto.
+    - cbn [Spec.json_of Spec.renders]. destruct W as [B W]. destruct S as [-> | (v' & -> & S)]; [left; auto|].
+      right. pose proof (IHt W _ S) as Hr. split.
+      + eapply renders_nonnull; eauto.
+      + exists v'. auto.
+    - cbn [Spec.json_of Spec.renders]. pose proof (IHt W _ S) as Hr.
+      destruct (json_of t v) eqn:E; try (right; split; [discriminate | exact Hr]).
+      left. split; [reflexivity|]. eapply renders_null_zero; eauto.
+    - cbn [Spec.json_of Spec.renders]. destruct S as (vs & -> & HF). exists vs, (map (json_of t) vs).
+      split; [reflexivity|]. split; [reflexivity|].
+      induction HF as [|x l Hx HF IH]; constructor; auto.
+    - destruct S as (vs & -> & HF). destruct W as [Hnd W].
+      cbn [Spec.json_of].
+      match goal with |- Spec.renders _ _ _ _ _ (VObj ?o) => set (O := o) end.
+      apply frel_renders; [exact Hnd|]. subst O. clear Hnd.
+      revert vs HF. induction H as [|[n t'] r Hh Ht IH]; intros vs HF.
+      + destruct vs; [constructor | contradiction].
+      + destruct vs as [|[n' v'] vs']; [contradiction|].
+        destruct HF as (-> & Sv & HF). destruct W as [Wt Wr]. cbn [snd] in Hh.
+        constructor; [apply Hh; assumption | apply IH; assumption].
+  Qed.
+
+  Theorem variable_roundtrip : forall t v, wf_ty t -> sendable t v -> parse t (json_of t v) = Ok v.
+  Proof. intros t v W S. apply renders_parse. apply json_renders; assumption. Qed.
+End Transport.
+
+(** * Literal transport *)
+Fixpoint vtj_fields (vars : list (string * jv)) (fs : list (string * lit)) (seen : list string)
+  : result (list (string * jv)) :=
+  match fs with
+  | [] => Ok []
+  | (n, x) :: r =>
+      if mem_str n seen then Err EParse
+      else match vtj vars x with
+           | Err e => Err e
+           | Ok v => match vtj_fields vars r (n :: seen) with
+                     | Ok vs => Ok ((n, v) :: vs)
+                     | Err e => Err e
+                     end
+           end
+  end.
+
+Lemma vtj_list_eq vars l :
+  vtj vars (LList l) = match mapr (vtj vars) l with Ok vs => Ok (VArr vs) | Err e => Err e end.
+Proof.
+  cbn [vtj].
+  induction l as [|x r IH]; [reflexivity|].
+  cbn [mapr]. destruct (vtj vars x) as [v|e]; [|reflexivity].
+  match type of IH with match ?F with _ => _ end = _ => destruct F end;
+    destruct (mapr (vtj vars) r); inversion IH; subst; reflexivity.
+Qed.
+
+Lemma vtj_obj_eq vars fs :
+  vtj vars (LObj fs) = match vtj_fields vars fs [] with Ok vs => Ok (VObj vs) | Err e => Err e end.
+Proof.
+  cbn [vtj]. generalize (@nil string) as seen.
+  induction fs as [|[n x] r IH]; intros seen; [reflexivity|].
+  cbn [vtj_fields]. destruct (mem_str n seen); [reflexivity|].
+  destruct (vtj vars x) as [v|e]; [|reflexivity].
+  specialize (IH (n :: seen)).
+  match type of IH with match ?F with _ => _ end = _ => destruct F end;
+    destruct (vtj_fields vars r (n :: seen)); inversion IH; subst; reflexivity.
+Qed.
+
+Lemma mem_str_false n seen : ~ In n seen -> mem_str n seen = false.
+Proof.
+  intros H. unfold mem_str. destruct (existsb (String.eqb n) seen) eqn:E; [|reflexivity].
+  apply existsb_exists in E as (x & Hin & Hx). apply String.eqb_eq in Hx; subst. contradiction.
+Qed.
+
+Section Literal.
+  Variable b64 : string -> option (list Z).
+  Variable tdec : string -> option tval.
+  Variable xdec : string -> option string.
+  Variable b64e : list Z -> string.
+  Variable tenc : tval -> string.
+  Variable xenc : string -> string.
+  Variable time_ok : tval -> Prop.
+  Variable text_ok : string -> Prop.
+  Hypothesis b64_rt : forall b, bytes_ok b -> b64 (b64e b) = Some b.
+  Hypothesis time_rt : forall x, time_ok x -> tdec (tenc x) = Some x.
+  Hypothesis text_rt : forall s, text_ok s -> xdec (xenc s) = Some s.
+  Variable nullvar : string.
+  Variable vars : list (string * jv).
+  Hypothesis null_unbound : lookup nullvar vars = None \/ lookup nullvar vars = Some VNull.
+
+  Notation parse := (parse b64 tdec xdec).
+  Notation renders := (renders b64 tdec xdec).
+  Notation sendable := (sendable time_ok text_ok).
+  Notation lit_of := (lit_of b64e tenc xenc nullvar).
+  Notation frel := (frel b64 tdec xdec).
+
+  Fixpoint lit_fields (fs : list (string * ty)) (vs : list (string * gv)) : list (string * lit) :=
+    match fs, vs with
+    | (n, t') :: fs', (_, v') :: vs' => (n, lit_of t' v') :: lit_fields fs' vs'
+    | _, _ => []
+    end.
+
+  Lemma lit_struct_eq fs vs : lit_of (TStruct fs) (GStruct vs) = LObj (lit_fields fs vs).
+  Proof. reflexivity. Qed.
+
+  Lemma vtj_nullvar : vtj vars (LVar nullvar) = Ok VNull.
+  Proof. cbn [vtj]. destruct null_unbound as [-> | ->]; reflexivity. Qed.
+
+  Lemma int64_ok_53 z : - 2 ^ 53 <= z <= 2 ^ 53 -> int64_ok z = true.
+  Proof. intros H. unfold int64_ok. pows_in H. pows. lia. Qed.
+
+  Theorem lit_renders :
+    forall t, wf_ty t -> forall v, sendable t v -> exists j, vtj vars (lit_of t v) = Ok j /\ renders t v j.
+  Proof.
+    induction t using ty_ind'; intros W v S; cbn [wf_ty Spec.sendable] in W, S.
+    - destruct S as (b & ->). exists (VBool b). split; [reflexivity|]. exists b. auto.
+    - destruct S as (z & -> & Hr & H53). cbn [Spec.lit_of vtj]. rewrite int64_ok_53 by exact H53.
+      destruct (round_sig 53 z 0) as [m e] eqn:E. exists (VNum m e). split; [reflexivity|].
+      exists z, m, e. split; [reflexivity|]. split; [reflexivity|].
+      split; [eapply round53_int; eauto | apply sendable_conv_ok; assumption].
+    - destruct S as (m & e & -> & Hn & Ha). exists (VNum m e). split; [reflexivity|]. exists m, e, m, e. auto.
+    - destruct S as (m & e & -> & Hn). exists (VNum m e). split; [reflexivity|]. exists m, e, m, e. auto.
+    - destruct S as (s & ->). exists (VStr s). split; [reflexivity|]. exists s. auto.
+    - destruct S as (b & -> & Hb). exists (VStr (b64e b)). split; [reflexivity|]. exists b, (b64e b). auto.
+    - destruct S as (x & -> & Hx). exists (VStr (tenc x)). split; [reflexivity|]. exists x, (tenc x). auto.
+    - destruct S as (n & Hn). cbn [Spec.lit_of]. rewrite Hn. exists (VStr n). split; [reflexivity|].
+      exists n. split; [reflexivity|]. apply rev_lookup_lookup; assumption.
+    - destruct S as (x & -> & Hx). exists (VStr (xenc x)). split; [reflexivity|]. exists x, (xenc x). auto.
+    - destruct W as [B W]. destruct S as [-> | (v' & -> & S)].
+      + exists VNull. split; [apply vtj_nullvar|]. left. auto.
+      + destruct (IHt W _ S) as (j & Hj & Hr). exists j. split; [exact Hj|].
+        right. split; [eapply renders_nonnull; eauto|]. exists v'. auto.
+    - destruct (IHt W _ S) as (j & Hj & Hr). exists j. split; [exact Hj|].
+      cbn [Spec.renders].
+      destruct j; try (right; split; [discriminate | exact Hr]).
+      left. split; [reflexivity|]. eapply renders_null_zero; eauto.
+    - destruct S as (vs & -> & HF). cbn [Spec.lit_of]. rewrite vtj_list_eq.
+      assert (E : exists js, mapr (vtj vars) (map (lit_of t) vs) = Ok js /\ Forall2 (renders t) vs js).
+      { induction HF as [|x l Hx HF IH]; [exists []; split; [reflexivity | constructor]|].
+        destruct (IHt W _ Hx) as (j & Hj & Hr). destruct IH as (js & Hjs & HR).
+        exists (j :: js). cbn [map mapr]. rewrite Hj, Hjs. split; [reflexivity | constructor; assumption]. }
+      destruct E as (js & Hjs & HR). rewrite Hjs. exists (VArr js). split; [reflexivity|].
+      exists vs, js. auto.
+    - destruct S as (vs & -> & HF). destruct W as [Hnd W]. rewrite lit_struct_eq, vtj_obj_eq.
+      assert (E : forall seen, (forall n, In n (map fst fs) -> ~ In n seen) ->
+                    exists o, vtj_fields vars (lit_fields fs vs) seen = Ok o /\ frel fs vs o).
+      { clear - H W HF Hnd. revert W Hnd vs HF.
+        induction H as [|[n t'] r Hh Ht IH]; intros W Hnd vs HF seen Hs.
+        - destruct vs; [|contradiction]. exists []. split; [reflexivity | constructor].
+        - destruct vs as [|[n' v'] vs']; [contradiction|].
+          destruct HF as (-> & Sv & HF). destruct W as [Wt Wr]. cbn [snd] in Hh.
+          cbn [map fst] in Hnd. inversion Hnd as [|? ? Hn' Hr']; subst.
+          destruct (Hh Wt _ Sv) as (j & Hj & Hr).
+          destruct (IH Wr Hr' vs' HF (n' :: seen)) as (o & Ho & HFo).
+          { intros m Hm [E | Hin]; [subst; contradiction|]. apply (Hs m); [right; exact Hm | exact Hin]. }
+          exists ((n', j) :: o). cbn [lit_fields vtj_fields].
+          rewrite mem_str_false by (apply Hs; left; reflexivity).
+          rewrite Hj, Ho. split; [reflexivity | constructor; assumption]. }
+      destruct (E [] (fun _ _ F => F)) as (o & Ho & HFo). rewrite Ho.
+      exists (VObj o). split; [reflexivity|]. apply frel_renders; assumption.
+  Qed.
+
+  Theorem literal_roundtrip :
+    forall t v, wf_ty t -> sendable t v ->
+      exists j, vtj vars (lit_of t v) = Ok j /\ parse t j = Ok v.
+  Proof.
+    intros t v W S. destruct (lit_renders t W v S) as (j & Hj & Hr).
+    exists j. split; [exact Hj | apply renders_parse; exact Hr].
+  Qed.
+End Literal.
 
 (** * Two-phase machine: no resolver call unless every argument list of the request parsed *)
 Section Machine.
